@@ -126,6 +126,9 @@ def matches(rec, case, res):
                 return False
         elif have != v:
             return False
+    for k, v in m.get("feat_re", {}).items():
+        if not re.search(v, str(res.get("feat", {}).get(k))):
+            return False
     if "case_re" in m and not re.search(m["case_re"], json.dumps(case, sort_keys=True, default=str)):
         return False
     return True
@@ -204,6 +207,10 @@ def main_check(pid, tier, jobs, seed, replay=None, max_report=20, filt=None):
         keys = {case_hash(c) for c in cases}
         ntkeys = {case_hash(c) for c, r in zip(cases, results) if r.get("nontrivial") and r["verdict"] in (OK, VIOL)}
 
+    if os.environ.get("VERIF_DUMP"):
+        with open(os.environ["VERIF_DUMP"], "w") as f:
+            for c, r in new_viol:
+                f.write(json.dumps({"case": c, "r": {k: r[k] for k in ("kind", "exc", "msg", "feat")}}, default=str) + "\n")
     rc = 0
     for hid, (hit, cnt, (c, r)) in sorted(known_hits.items()):
         print(f"KNOWN-FINDING: property={pid} {hit['what']} [{hid}] ({cnt} cases)")
@@ -220,6 +227,8 @@ def main_check(pid, tier, jobs, seed, replay=None, max_report=20, filt=None):
         shown = 0
         for g, items in sorted(groups.items(), key=lambda kv: -len(kv[1])):
             c, r = items[0]
+            if shown >= max_report:
+                continue
             # determinism guard: the same case must fail the same way again before it is reported
             r2 = None
             for cc, rr in flatten(c, run_one(pid, c, seed, timeout)):
